@@ -158,12 +158,24 @@ struct TopoMachine : Machine {
     if (sk < 7 || corpus.empty()) p.seth("src", "synthetic " + gen_synthetic(srcg));
     else p.seth("src", std::string(sk == 7 ? "xmlbuf " : "xml ") + corpus[srcg.below(corpus.size())]);
     if (dgx) p.seth("src", srcg.chance(1, 2) ? "xml nvidiaDGX2.xml" : "xml power8gpudistances.xml");
+    // a bundled Linux/x86 snapshot (intact) as the source of an ordinary history: native discovery builds states (wide PCI domains, cgroup-restricted
+    // sets, offline CPUs, memory-side caches, heterogeneous memory) that no synthetic string or corpus XML holds. Own sub-stream: the other draws are unchanged
+    Rng sng = root.sub(4); bool snapsrc = false, snapio = false;
+    { size_t ns = snapshot_count();
+      static const char *IO_SNAPS[] = {"2pa-pcidomain32bits", "nvidiagpunumanodes", "40intel64-4n10c+pci-conflicts", "32intel64-2p8co2t+8ve", "40intel64-2g2n4c+pcilocality", "32em64t-2n8c+dax+nvme+mic+dimms"};
+      bool wants = prop == "C02" || prop == "C05" || prop == "C08" || prop == "C09" || prop == "C12" || prop == "C13" || prop == "C14" || prop == "C15" || prop == "C16" || prop == "C19";
+      if (ns && wants && !dgx && sng.chance(1, prop == "C05" ? 6 : 12)) {
+        long si = (long)sng.below(ns);
+        if (sng.chance(1, 2)) { long k = snapshot_index(IO_SNAPS[sng.below(prop == "C05" ? 4 : 6)]); if (k >= 0) { si = k; snapio = true; } }
+        p.seth("src", "snap " + std::to_string(si) + " " + std::to_string(sng.below(4)) + " " + std::to_string(sng.chance(1, 3) ? sng.below(3) + 1 : 0)); snapsrc = true; } }
+    (void)snapsrc;
     // configuration: filters and flags
     std::string filters(HWLOC_OBJ_TYPE_MAX, '-'); int fmode = (int)cfg.below(5);
     for (int ty = 0; ty < HWLOC_OBJ_TYPE_MAX; ty++) {
       if (fmode == 1) filters[ty] = '0'; else if (fmode == 2) filters[ty] = '2'; else if (fmode == 3) filters[ty] = (char)('0' + cfg.below(4)); else if (fmode == 4 && cfg.chance(1, 4)) filters[ty] = (char)('0' + cfg.below(4));
     }
     if (prop != "C01" && cfg.chance(3, 4)) filters[HWLOC_OBJ_MISC] = '0';
+    if (snapio && sng.chance(3, 4)) { filters[HWLOC_OBJ_PCI_DEVICE] = '0'; filters[HWLOC_OBJ_OS_DEVICE] = '0'; filters[HWLOC_OBJ_BRIDGE] = sng.chance(1, 2) ? '0' : '3'; }   // keep what makes these snapshots special
     if (dgx) { filters[HWLOC_OBJ_PCI_DEVICE] = '0'; filters[HWLOC_OBJ_OS_DEVICE] = '0'; filters[HWLOC_OBJ_BRIDGE] = cfg.chance(1, 2) ? '0' : '3'; }   // histories want Misc objects
     unsigned long flags = 0;
     if (cfg.chance(1, 3)) flags |= HWLOC_TOPOLOGY_FLAG_INCLUDE_DISALLOWED;
